@@ -113,6 +113,7 @@ type qItem struct {
 	suffix string
 	typ    operation.Type
 	exp    bool
+	early  bool // its anchoring window has not opened yet: the handler refuses the batch (it is not expired and must not be dropped)
 	v      uint64
 }
 
@@ -158,6 +159,17 @@ func (m *qModel) step(force bool, failCAS, failAnchor int) {
 		var included, deferred []qItem
 		var expired []string
 		seen := map[string]bool{}
+		for _, it := range b {
+			if it.early {
+				// the handler refuses the whole batch (an operation that is not yet valid is not expired): it goes back to the queue
+				rec.ids = nil
+				for _, x := range b {
+					rec.ids = append(rec.ids, x.uid)
+				}
+				m.Handled = append(m.Handled, rec)
+				return false
+			}
+		}
 		for _, it := range b {
 			rec.ids = append(rec.ids, it.uid)
 			switch {
@@ -356,8 +368,8 @@ func c16Alphabet() map[string]qItem {
 		sym string
 		did int
 		key string
-	}{{"C1", 0, "C"}, {"U1", 0, "U"}, {"C2", 1, "C"}, {"D3", 2, "D"}, {"Ux2", 1, "Ux"}, {"R3", 2, "R"}} {
-		m[s.sym] = qItem{sym: s.sym, suffix: c16DIDs[s.did].Suffix, typ: fx.TypeOf(s.key), exp: strings.HasSuffix(s.key, "x")}
+	}{{"C1", 0, "C"}, {"U1", 0, "U"}, {"C2", 1, "C"}, {"D3", 2, "D"}, {"Ux2", 1, "Ux"}, {"R3", 2, "R"}, {"Ue2", 1, "Ue"}} {
+		m[s.sym] = qItem{sym: s.sym, suffix: c16DIDs[s.did].Suffix, typ: fx.TypeOf(s.key), exp: strings.HasSuffix(s.key, "x"), early: strings.HasSuffix(s.key, "e")}
 	}
 	return m
 }
@@ -367,7 +379,7 @@ func c16Request(sym string) []byte {
 		sym string
 		did int
 		key string
-	}{{"C1", 0, "C"}, {"U1", 0, "U"}, {"C2", 1, "C"}, {"D3", 2, "D"}, {"Ux2", 1, "Ux"}, {"R3", 2, "R"}} {
+	}{{"C1", 0, "C"}, {"U1", 0, "U"}, {"C2", 1, "C"}, {"D3", 2, "D"}, {"Ux2", 1, "Ux"}, {"R3", 2, "R"}, {"Ue2", 1, "Ue"}} {
 		if s.sym == sym {
 			return c16DIDs[s.did].Req[s.key]
 		}
@@ -764,7 +776,7 @@ func c16SequentialMax(r *hx.Run, max int, depthCap int) {
 	casFaults := []int{1, 2, 3}
 	if r.Tier == "thorough" {
 		depth, maxAdds = 6, 4
-		syms = []string{"C1", "U1", "C2", "D3", "Ux2"}
+		syms = []string{"C1", "U1", "C2", "D3", "Ux2", "Ue2"}
 		casFaults = []int{1, 2, 3, 4, 5, 7}
 	}
 	var adds []c16Event
@@ -774,7 +786,7 @@ func c16SequentialMax(r *hx.Run, max int, depthCap int) {
 		}
 	}
 	if r.Tier == "quick" {
-		adds = append(adds, c16Event{Kind: "add", Sym: "Ux2", V: 10}, c16Event{Kind: "add", Sym: "D3", V: 0})
+		adds = append(adds, c16Event{Kind: "add", Sym: "Ux2", V: 10}, c16Event{Kind: "add", Sym: "D3", V: 0}, c16Event{Kind: "add", Sym: "Ue2", V: 0})
 	}
 	var ticks []c16Event
 	for _, force := range []bool{false, true} {
@@ -1338,7 +1350,7 @@ func c16Concurrent(r *hx.Run) {
 
 func c16(r *hx.Run) {
 	fx.Quiet()
-	r.Rule = "(a) breadth-first search over event sequences {Add(op, version) over 5 operations x 2 protocol versions; monitor tick; timeout tick; each tick with no fault, a chosen CAS write failing, the anchor write failing, or the writer's protocol-version lookup failing} to depth 5 (thorough 6) with <=3 (4) adds (quick: 8 add events and 12 tick events; thorough: 10 and 20), de-duplicated on the reference state; every transition replays the sequence on a fresh real Writer + cutter + MemQueue + OperationHandler in lock-step with the list reference model (queue content, every handler invocation, every anchored batch); (b) stateless exploration of 4 concurrent scenarios (2-3 submitter goroutines + a writer goroutine taking explorer-chosen ticks and faults) under a cooperative scheduler with scheduling points at every mutex/atomic operation of memqueue.go / writer.go (import-rewritten overlay), all executions with <=2 (thorough 3) deviations (preemptions + faults): linearized queue calls replayed on a FIFO list, batch invariants, no deadlock, and after a fault-free drain every accepted operation anchored exactly once; (c) the writer's own goroutine (Start: timers + select loop) with a 2 ms monitor interval and a 24 h batch timeout: an undersized batch is not cut by any monitor tick (only the part in front of a version boundary is), a stopped writer anchors nothing more. Non-trivial: distinct reference states with an anchored batch; distinct batch partitions observed."
+	r.Rule = "(a) breadth-first search over event sequences {Add(op, version) over 6 operations (incl. an expired one, which is dropped, and a not-yet-valid one, whose batch is refused and stays queued) x 2 protocol versions; monitor tick; timeout tick; each tick with no fault, a chosen CAS write failing, the anchor write failing, or the writer's protocol-version lookup failing} to depth 5 (thorough 6) with <=3 (4) adds (quick: 8 add events and 12 tick events; thorough: 10 and 20), de-duplicated on the reference state; every transition replays the sequence on a fresh real Writer + cutter + MemQueue + OperationHandler in lock-step with the list reference model (queue content, every handler invocation, every anchored batch); (b) stateless exploration of 4 concurrent scenarios (2-3 submitter goroutines + a writer goroutine taking explorer-chosen ticks and faults) under a cooperative scheduler with scheduling points at every mutex/atomic operation of memqueue.go / writer.go (import-rewritten overlay), all executions with <=2 (thorough 3) deviations (preemptions + faults): linearized queue calls replayed on a FIFO list, batch invariants, no deadlock, and after a fault-free drain every accepted operation anchored exactly once; (c) the writer's own goroutine (Start: timers + select loop) with a 2 ms monitor interval and a 24 h batch timeout: an undersized batch is not cut by any monitor tick (only the part in front of a version boundary is), a stopped writer anchors nothing more. Non-trivial: distinct reference states with an anchored batch; distinct batch partitions observed."
 	t0 := time.Now()
 	if (r.Only == "" || strings.HasPrefix(r.Only, "seq|")) && os.Getenv("VERIF_C16_PART") != "conc" {
 		c16Sequential(r)
